@@ -61,6 +61,8 @@ type Script struct {
 	// unite: the producer cuts its input slices out of one backing array (as a producer that
 	// parses one buffer would) instead of allocating each slice separately
 	SharedArray bool `json:"producer_shares_one_array"`
+	// unite: empty input slices are sent as nil instead of as zero-length slices
+	NilEmpty bool `json:"empty_slices_are_nil"`
 }
 
 // Out is one delivered slice as observed.
@@ -234,6 +236,9 @@ func Execute(t *testing.T, s Script, leakScan bool) Trace {
 					}
 					if s.SharedArray {
 						sl = arr[next : next+st.Len]
+					}
+					if s.NilEmpty && st.Len == 0 {
+						sl = nil
 					}
 					select {
 					case ins <- sl:
@@ -423,7 +428,10 @@ func Execute(t *testing.T, s Script, leakScan bool) Trace {
 				doStop()
 			}
 			_ = stoppedByConsumer
-			wait := 3*s.Timeout + 1000
+			wait := int64(1000)
+			if s.Timeout > 0 {
+				wait += 3 * s.Timeout
+			}
 			time.Sleep(time.Duration(wait))
 			bubble.Wait()
 			for i := range tr.Outs {
